@@ -16,6 +16,8 @@ BoolOps == {"<", "<=", ">", ">=", "=", "/=", "zerop", "plusp", "minusp"}
 Sign(x) == x.n.s
 Holds(op, c) == CASE op = "<" -> c < 0 [] op = "<=" -> c <= 0 [] op = ">" -> c > 0 [] op = ">=" -> c >= 0
                   [] op = "=" -> c = 0 [] op = "/=" -> c # 0
+Holds3(op, a, b, c) == IF op = "/=" THEN RCmp(a, b) # 0 /\ RCmp(b, c) # 0 /\ RCmp(a, c) # 0
+                       ELSE Holds(op, RCmp(a, b)) /\ Holds(op, RCmp(b, c))
 Check(e) ==
   LET a == e.a  b == e.b  r == e.r IN
   IF e.a2 # a \/ e.b2 # b THEN "operand-changed"
@@ -24,6 +26,8 @@ Check(e) ==
        (IF e.op \in {"zerop", "plusp", "minusp"}
         THEN IF e.bool = (CASE e.op = "zerop" -> Sign(a) = 0 [] e.op = "plusp" -> Sign(a) > 0 [] e.op = "minusp" -> Sign(a) < 0)
              THEN "" ELSE "wrong"
+        \* three arguments: the ordering relations hold between neighbours, = between all, /= between every two
+        ELSE IF e.n = 3 THEN (IF e.bool = Holds3(e.op, a, b, e.c) THEN "" ELSE "wrong-three-arguments")
         ELSE IF e.fb THEN (IF e.bool = Holds(e.op, CmpFloat(a, e.fm, e.fe)) THEN "" ELSE "wrong-vs-float")
         ELSE IF e.bool = Holds(e.op, RCmp(a, b)) THEN "" ELSE "wrong")
   ELSE IF ~RWell(r) \/ ~RWell(e.r2) THEN "malformed"
